@@ -61,3 +61,80 @@ def run(trace_module, consts, traces, jobs=8, timeout=900):
         return out, states
     finally:
         shutil.rmtree(d, ignore_errors=True)
+
+
+# ------------------------------------------------------------------ two-stack traces against SD2.tla
+def ticks_of(ev):
+    """net2 event list -> per-instant records {t, faults, outs} (instants at which nothing observable happened are dropped)"""
+    ticks = {}
+    for e in ev:
+        t = e.get("t", 0)
+        rec = ticks.setdefault(t, {"t": t, "faults": [], "outs": []})
+        if e.get("k") == "in" and e.get("op") == "fault":
+            if e["kind"].endswith("_applied"):
+                rec["outs"].append(["fault", e["kind"]])
+            else:
+                f = {"kind": e["kind"], "node": e.get("node", "")}
+                if "d" in e:
+                    f["d"] = e["d"]
+                rec["faults"].append(f)
+        elif e.get("k") == "out" and e.get("op") == "wire":
+            rec["outs"].append(["wire", e["node"], bool(e["mc"]), [[x[0], x[1]] for x in e["es"]]])
+        elif e.get("k") == "out":
+            rec["outs"].append([e["op"], e["node"]])
+        elif e.get("k") == "exc":
+            rec["outs"].append(["exc"])
+    return [ticks[t] for t in sorted(ticks) if ticks[t]["faults"] or ticks[t]["outs"]]
+
+
+def _chunk2(args):
+    consts, path, n, timeout = args
+    defs = "\n".join("TC_%s == %s" % (k, v) for k, v in consts.items())
+    mod = "---- MODULE TR2 ----\nEXTENDS SD2Trace, SD2Configs\n%s\n====\n" % defs
+    cfg = "SPECIFICATION TSpec\nCONSTANTS\n" + "\n".join("  %s <- TC_%s" % (k, k) for k in consts) + \
+          "\nCONSTRAINT Progress\nPOSTCONDITION Done\nCHECK_DEADLOCK FALSE\n"
+    res = tlc.run("TR2", cfg, workers=1, timeout=timeout, env={"TRACE_FILE": path}, extra_modules={"TR2.tla": mod}, dfs=True)
+    out = {}
+    for p in res.prints:
+        m = _C.match(p.replace("\n", " "))
+        if m:
+            out[int(m.group(1))] = (m.group(2) == "ACCEPT", int(m.group(3)), int(m.group(4)))
+    if len(out) != n:
+        raise tlc.TLCError("conformance SD2Trace: %d verdicts for %d traces\n%s" % (len(out), n, res.stdout[-3000:]))
+    return out, res.distinct
+
+
+def run2(consts, traces, jobs=8, timeout=1500):
+    """traces: list of {"ticks": [...]}; consts: TLA+ expressions for Match, Cfg, Sw.  -> [(accepted, reached, length)], states"""
+    if not traces:
+        return [], 0
+    consts = dict(consts)
+    consts.setdefault("Kinds", '{"crash_srv", "crash_wat", "stop_srv", "stop_wat", "loss", "drop", "dup", "delay"}')
+    consts.setdefault("MaxFaults", "1000")
+    consts.setdefault("FaultWindow", "1000000")
+    consts.setdefault("Horizon", "1000000")
+    consts.setdefault("Delays", "0..100")
+    consts.setdefault("Sched", '"any"')
+    d = tlc.scratch("conf2")
+    try:
+        jobs = max(1, min(jobs, (len(traces) + 9) // 10))
+        parts = [[] for _ in range(jobs)]
+        for i, t in enumerate(traces):
+            parts[i % jobs].append((i, t))
+        work = []
+        for j, part in enumerate(parts):
+            path = os.path.join(d, "tr%d.ndjson" % j)
+            with open(path, "w") as fh:
+                for _, t in part:
+                    fh.write(json.dumps({"ticks": t["ticks"]}) + "\n")
+            work.append((consts, path, len(part), timeout))
+        out = [None] * len(traces)
+        states = 0
+        with cf.ThreadPoolExecutor(max_workers=jobs) as ex:
+            for part, (verdicts, distinct) in zip(parts, ex.map(_chunk2, work)):
+                states += distinct
+                for k, (i, _) in enumerate(part):
+                    out[i] = verdicts[k + 1]
+        return out, states
+    finally:
+        shutil.rmtree(d, ignore_errors=True)
